@@ -28,7 +28,7 @@ RULE = (
     "ends with an unhandled exception; afterwards a probe in the root and in every start directory that kept path and "
     "inode is reported; root deletion gives exactly one DirDeletedEvent(root) (none if the watch's event filter does not "
     "admit it), nothing after it, and a stopped emitter - also exhaustively over recursive x emitter kind x 6 event "
-    "filters; one random case in four runs under an event filter. "
+    "filters x root spelling (absolute, trailing separator, relative); one random case in four runs under an event filter. "
     "non-trivial = history has an ext op, a re-used name, an injected race that was actually hit, an API re-schedule or "
     "a root deletion; distinct = digest of the case"
 )
@@ -281,6 +281,7 @@ def classes_of(case, info):
         cl.append("name-reused")
     nt = bool(set(c.split(":")[0] for c in cl) & {"ext-op", "api-reschedule", "root-deletion", "race-hit", "name-reused"})
     cl.append("recursive" if case["cfg"].get("recursive", True) else "non-recursive")
+    cl.append("root:" + case["cfg"].get("spelling", "abs"))
     if case.get("unpaced"):
         cl.append("unpaced-history")
     if case["cfg"].get("event_filter"):
@@ -297,6 +298,7 @@ def cases(draw, tier):
         "bytes": draw(st.sampled_from([False, False, True])),
         "full": draw(st.sampled_from([False, False, True])),
         "bufsize": draw(st.sampled_from(c01.BUFSIZES)),
+        "spelling": draw(st.sampled_from(["abs", "abs", "slash", "rel", "relslash"])),
     }
     if draw(st.integers(0, 3)) == 0:
         # every filter keeps FileCreatedEvent: sentinels and probes are file creations
@@ -349,10 +351,11 @@ def exhaustive_cases(tier):
         for rec in (True, False):
             for full in (False, True):
                 for flt in [None] + FILTERS:
-                    cfg = {"recursive": rec, "full": full}
-                    if flt:
-                        cfg["event_filter"] = flt
-                    yield {"cfg": cfg, "init": init, "bursts": [[["create", "b"]], [["rmroot"]]]}
+                    for spelling in ("abs", "slash", "rel"):
+                        cfg = {"recursive": rec, "full": full, "spelling": spelling}
+                        if flt:
+                            cfg["event_filter"] = flt
+                        yield {"cfg": cfg, "init": init, "bursts": [[["create", "b"]], [["rmroot"]]]}
     for init in EXH_STATES:
         m0 = fsops.model_after_init(init)
 
